@@ -57,17 +57,22 @@ void run_with(vf::Ctx& c, vf::RunCfg<T> const& cfg, char const* engine_name)
     if (t.pick(4) == 0) { target = static_cast<T>(std::pow(10.0, -3.0 * t.unit())); }
     bool const file_mode = t.pick(3) == 0;
     bool const reload_start = t.flag();
+    bool const base_callback = t.flag();
     std::string const file = scratch_file();
     hep::callback_mode const mode = file_mode ? hep::callback_mode::silent_and_write_chkpt : hep::callback_mode::silent;
     c.desc << vf::type_name<T>::get() << ' ' << engine_name << ' ' << cfg.describe() << " calls=" << vf::show(calls) << " target=" << vf::show(target)
-           << (file_mode ? " via-file" : " via-string") << (reload_start ? " start-through-text" : "");
+           << (file_mode ? " via-file" : " via-string") << (reload_start ? " start-through-text" : "") << (base_callback ? " callback<base checkpoint type>" : "");
 
     // the built-in callback, wrapped only to see its verdict (a run that was told to stop is over: what
     // follows is not a resumption of it)
     bool go_on = true;
+    // the callback type is either instantiated on the checkpoint type the run uses or - as the library's examples
+    // do - on the checkpoint type without generators (the object handed over is the same)
     auto cb = [&]() {
         hep::callback<Chk> inner(mode, file, target);
-        return [inner, &go_on](Chk const& k) mutable { go_on = inner(k); return go_on; };
+        hep::callback<typename R::Base> inner_base(mode, file, target);
+        bool const use_base = base_callback;
+        return [inner, inner_base, use_base, &go_on](Chk const& k) mutable { go_on = use_base ? inner_base(k) : inner(k); return go_on; };
     };
 
     Chk const ref = R::run(cfg, R::fresh(cfg), calls, cb());
@@ -156,6 +161,7 @@ void run_with(vf::Ctx& c, vf::RunCfg<T> const& cfg, char const* engine_name)
     if (file_mode) { std::remove(file.c_str()); std::remove((file + ".tmp").c_str()); }
     if (n >= 3) { c.label("interruptions>=2"); }
     if (file_mode) { c.label("via-file"); }
+    if (file_mode && base_callback) { c.label("via-file-base-callback"); }
     if (target > T(0) && performed < n) { c.label("early-stop"); }
     for (auto const& d : cfg.fn.dists) { if (d.name.empty() || d.name[0] == ' ') { c.label("odd-distribution-name"); break; } }
     if (!cfg.fn.dists.empty()) { c.label("with-distributions"); }
